@@ -236,7 +236,7 @@ func c01Request(r *kernel.Run, w *World, tp *kernel.Tape, ids []*Ident, inter, o
 		}
 	}
 	// wrapped / re-wrapped registration info
-	wrapClass := Pick2(tp, "none", "none", "none", "server", "server", "foreign", "server-other-nonce", "server-other-key", "rewrapped", "rewrapped", "rewrapped-unregistered-id", "rewrapped-wrong-id", "rewrapped-other-nonce", "garbage", "garbage-rewrapped")
+	wrapClass := Pick2(tp, "none", "none", "none", "server", "server", "foreign", "server-other-nonce", "server-other-key", "rewrapped", "rewrapped", "rewrapped-unregistered-id", "rewrapped-wrong-id", "rewrapped-other-nonce", "garbage", "garbage-rewrapped", "rewrapped-info-without-key", "rewrapped-other-message-type")
 	sp := ReqSpec{Cert: cert, EncPub: enc, Nonce: nonce, NotBefore: now, NotAfter: now.Add(24 * time.Hour)}
 	otherNonce := make([]byte, 32)
 	rand.Read(otherNonce)
@@ -270,6 +270,17 @@ func c01Request(r *kernel.Run, w *World, tp *kernel.Tape, ids []*Ident, inter, o
 		sp.Rewrapped, sp.RewrapKey = rewrap(regInfoFor(nonce, cert.Pkix)), other.KeyId
 	case "rewrapped-other-nonce":
 		sp.Rewrapped, sp.RewrapKey = rewrap(regInfoFor(otherNonce, cert.Pkix)), inter.KeyId
+	case "rewrapped-info-without-key":
+		// sealed by the registered intermediate, right nonce, but no certificate key inside
+		sp.Rewrapped, sp.RewrapKey = rewrap(&types.WrappingRegistrationFlowInfo{Nonce: nonce}), inter.KeyId
+	case "rewrapped-other-message-type":
+		// something else the intermediate's key has sealed (and that travels in clear on the wire): a fetch response's
+		// credentials message, whose field numbers overlap with the registration info's (nonce yes, key no)
+		b, err := nodeenrollment.EncryptMessage(w.Ctx, &types.NodeCredentials{RegistrationNonce: nonce, ServerEncryptionPublicKeyBytes: tp.Bytes(32)}, interCreds)
+		if err != nil {
+			r.HarnessErr("rewrap other message: %v", err)
+		}
+		sp.Rewrapped, sp.RewrapKey = b, inter.KeyId
 	case "garbage":
 		sp.Wrapped = tp.Bytes(tp.Range(1, 60))
 	case "garbage-rewrapped":
